@@ -2,9 +2,9 @@
 from __future__ import annotations
 from engine.registry import Registry
 from engine import sortmodel, polymodel
-from contracts import option, sorting, align, compare, order_lemmas, leading, dispatch, construct, dispatchfn
+from contracts import option, sorting, align, compare, order_lemmas, leading, dispatch, construct, dispatchfn, baseclass, derivative
 
-_CONTRACT_MODULES = [option, sorting, align, compare, leading, dispatch, construct, dispatchfn]
+_CONTRACT_MODULES = [option, sorting, align, compare, leading, dispatch, construct, dispatchfn, baseclass, derivative]
 
 ALL_CONTRACTS = {}
 for _m in _CONTRACT_MODULES:
@@ -135,10 +135,32 @@ PROPS = {
     "C05": dict(level="other", contracts=[], explanation="Bounded run-time contracts only so far (conc/checks_c05.py): identity "
                 "dividend == q*divisor + r in exact arithmetic, termination with iteration counter and state-repeat detection, "
                 "operator routing; division loop invariant/variant not yet under the VC generator.", trusted_base=COMMON_TRUSTED),
-    "C06": dict(level="other", contracts=[], explanation="Bounded run-time contracts only so far (conc/checks_c06.py) under all 16 "
-                "settings of the boolean options.", trusted_base=COMMON_TRUSTED),
-    "C09": dict(level="other", contracts=[], explanation="Bounded run-time contracts only so far (conc/checks_c09.py): numpy on an "
-                "object array of model polynomials as oracle.", trusted_base=COMMON_TRUSTED),
+    "C06": dict(level="other", contracts=["numpoly.derivative"],
+                explanation="derivative (real source) is proved for any number of terms and indeterminates, symbolic options, the variable "
+                "designated by position, by name or by an indeterminate polynomial, one or two successive variables: at the point "
+                "where the differentiated attributes are handed to the constructor the obligations establish that they are EXACTLY "
+                "the terms involving the variable, each with the exponent of that variable lowered by one (unsigned 32-bit "
+                "arithmetic modelled with wrap-around: no wrap can occur) and the coefficient multiplied by the old exponent, or the "
+                "single zero term when no term involves it; that the constructor's preconditions hold (storable exponents, no "
+                "duplicate rows, every coefficient defined); that nothing but ValueError for an unknown name is raised under any "
+                "option setting; that the in-place decrement hits a fresh array. The step from these facts to 'the formal partial "
+                "derivative of the denoted polynomial' is bridge B7 (definition of pdiff at coefficient level); successive variables "
+                "compose through the proved contract of align_polynomials. gradient/hessian (stacking, shapes), linearity, product "
+                "rule and commuting partials on concrete polynomials: bounded run-time checks (conc/checks_c06.py) under all 16 "
+                "settings of the boolean options.",
+                trusted_base=COMMON_TRUSTED + ["contracts of polynomial_from_attributes (C03) and align_polynomials (C04)",
+                                               "numpy axioms: boolean row masks, column read/write of an integer matrix, transpose, scalar*array"],
+                assumptions=["B7 (coefficient-level definition of the formal partial derivative)", "A1"],
+                not_decided=["gradient / hessian (bounded only)", "negative positions (bounded only)",
+                             "ring-level laws of pdiff (linearity, product rule, symmetry): facts of MvPolynomial.pderiv, not re-proved"]),
+    "C09": dict(level="other", contracts=["numpoly.ndpoly.__getitem__", "numpoly.ndpoly.__array_finalize__"],
+                explanation="ndpoly.__getitem__ (basic and advanced indexing, every index expression) is proved to rebuild the result "
+                "from the polynomial's own rows and names with EVERY coefficient column indexed by the same index, so whole polynomial "
+                "elements move; dtype kept, result fresh. The shape-function wrappers, joins, where/choose/full and iteration are "
+                "bounded run-time contracts (conc/checks_c09.py) with numpy on an object array of model polynomials as oracle.",
+                trusted_base=COMMON_TRUSTED + ["numpy indexing is dtype-agnostic (index map depends on shape and index only)"],
+                assumptions=["B6 (column-wise indexing moves whole elements)"],
+                not_decided=["shape-function wrappers, joins, iteration: bounded only"]),
     "C10": dict(level="other", contracts=["numpoly.simple_dispatch", "numpoly.sum", "numpoly.cumsum", "numpoly.mean"],
                 explanation="sum/cumsum/mean are proved to apply numpy.sum/cumsum/mean to every coefficient column of the operand with "
                 "axis/dtype/keepdims forwarded unchanged (contract of simple_dispatch: every column written, rows/names kept); that a "
@@ -150,14 +172,14 @@ PROPS = {
                 explanation="isconstant/tonumpy (on which the numeric division family and every 'constant' clause rest) are proved; "
                 "the catalogue of mirrored functions on constants is a bounded run-time check against numpy on plain arrays "
                 "(conc/checks_c11.py).", trusted_base=COMMON_TRUSTED),
-    "C12": dict(level="other", contracts=["numpoly.polynomial_from_attributes", "numpoly.clean_attributes"],
+    "C12": dict(level="other", contracts=["numpoly.polynomial_from_attributes", "numpoly.clean_attributes", "numpoly.ndpoly.astype"],
                 explanation="Definedness ghost state: polynomial_from_attributes (through which every constructor and operation "
                 "returns) is proved to write every coefficient on every path (compiled setter only under its precondition, numpy "
                 "fallback, empty case) and to carry the requested dtype; clean_attributes requires defined input. The dtype "
                 "catalogue (14 dtypes, casts, promotion) is a bounded run-time check with 0xA5-poisoned buffers.",
                 trusted_base=COMMON_TRUSTED + ["assumed contract of ndpoly.__new__ and of the compiled cfrom_attributes"]),
     "C19": dict(level="other", contracts=["numpoly.lead_coefficient", "numpoly.lead_exponent", "numpoly.isconstant", "numpoly.tonumpy",
-                                          "numpoly.glexsort"],
+                                          "numpoly.glexsort", "numpoly.ndpoly.todict"],
                 explanation="lead_exponent/lead_coefficient (largest non-zero term under the symbolic (graded, reverse) order, zeros "
                 "for the zero polynomial), isconstant, tonumpy (raises exactly for non-constants) are proved; todict, decompose, "
                 "set_dimensions, sortable_proxy, argmax/argmin/amax/amin: bounded run-time checks (conc/checks_c19.py).",
@@ -165,8 +187,19 @@ PROPS = {
     "C20": dict(level="other", contracts=[], explanation="Bounded/exhaustive run-time checks (conc/checks_c20.py): every single "
                 "exponent 0..0x110040 through construction, raw view, reconstruction, pickle (thorough tier, exhaustive); products "
                 "with exponent sums <= 600 exhaustively; random tuples below 55000.", trusted_base=COMMON_TRUSTED),
-    "C13": dict(level="other", contracts=[], explanation="Bounded run-time contracts only so far (conc/checks_c13.py).",
-                trusted_base=COMMON_TRUSTED),
+    "C13": dict(level="other", contracts=["numpoly.ndpoly.__reduce__", "numpoly.ndpoly.__array_finalize__",
+                                          "numpoly.polynomial_from_attributes"],
+                explanation="__reduce__ (real source) is proved to return polynomial_from_attributes together with the polynomial's "
+                "own exponents, coefficients, names, dtype and allocation and retain_coefficients=False; the round-trip lemma applies the "
+                "proved contract of polynomial_from_attributes to exactly that tuple under a symbolic option map: reconstruction "
+                "cannot fail, shape, dtype and value are the original's, the surviving terms are exactly the non-zero or constant "
+                "terms with their coefficients, names are unchanged when retain_names is on. __array_finalize__ (used by .copy() and "
+                "every numpy-made view) is proved to inherit keys, names, allocation and dtype from the parent. That pickle/copy/"
+                "deepcopy call __reduce__ and re-apply the tuple is CPython's protocol (trusted). savetxt/loadtxt (text, regex, "
+                "encodings, numpy I/O) have no contract within the solver's reach: bounded run-time check (conc/checks_c13.py).",
+                trusted_base=COMMON_TRUSTED + ["pickle/copy protocol of CPython and numpy's array pickling", "contract of polynomial_from_attributes (proved under C03)"],
+                assumptions=["B1 (abstract value depends only on the sparse coefficient map)"],
+                not_decided=["savetxt/loadtxt round trip (bounded only)", ".copy() itself is numpy's ndarray.copy (trusted) + __array_finalize__ (proved)"]),
     "C16": dict(level="other", contracts=[], explanation="Bounded run-time contracts only so far (conc/checks_c16.py): independent "
                 "parser of the printed text.", trusted_base=COMMON_TRUSTED),
     "C03": dict(
